@@ -11,7 +11,7 @@ Trace == ndJsonDeserialize("trace.ndjson")
 Sig(prop, kind, class, e) == [prop |-> prop, kind |-> kind, class |-> class, scn |-> e.scn, line |-> l]
 
 \* compare everything the specification models (grantVals is observed only)
-Cmp(s) == [f \in DOMAIN s \ {"grantVals", "grantExp"} |-> s[f]]
+Cmp(s) == [f \in DOMAIN s \ {"grantVals", "grantExp", "exists"} |-> s[f]]
 
 \* spending from a grant never changes when it expires: for every grant that existed before and still
 \* exists after a transaction that contains no approve-family call, the expiration is the same
